@@ -1020,6 +1020,8 @@ def i_happened(ex, st, args, ctx):
     tag = name_of(args[0])
     if tag.startswith('call:'):
         return z3.BoolVal(any(e[0] == 'call' and e[1].endswith(tag[5:]) for e in st.events))
+    if tag.startswith('retnil:'):
+        return z3.BoolVal(any(e[0] == 'ret' and e[1].endswith(tag[7:]) and (e[2] is NIL or e[2] is None) for e in st.events))
     if tag == 'prove_ok':
         return z3.BoolVal(any(e[0] == 'tag' and e[1] == 'prove_ok' for e in st.events))
     return z3.BoolVal(any(e[0] == 'tag' and e[1] == tag for e in st.events))
